@@ -16,6 +16,30 @@ type WCase struct {
 	FailAt int        `json:"fail_at,omitempty"`
 }
 
+// F-STD-dict-stored-block: compress/flate (go1.23) NewWriterDict leaves blockStart at 0 after
+// loading the dictionary, so when the first block is emitted as a stored block it contains the
+// dictionary bytes as well.  fastgo delegates every dictionary writer to compress/flate.  The
+// matcher accepts a case only if the writer has a dictionary AND fastgo's output for the history
+// is byte-identical to the output of the standard library's own writer (so nothing that fastgo
+// itself adds or changes is ever suppressed).
+func (c *WCase) knownClass() string {
+	if c == nil || c.Set.Dict == nil {
+		return ""
+	}
+	d := c.datas()
+	a := RunW(c.Set, false, d, c.Ops, 0)
+	b := RunW(c.Set, true, d, c.Ops, 0)
+	if a.Panic == "" && b.Panic == "" && len(a.Dests) == len(b.Dests) {
+		for i := range a.Dests {
+			if !bytes.Equal(a.Bytes(i), b.Bytes(i)) {
+				return ""
+			}
+		}
+		return "F-STD-dict-stored-block"
+	}
+	return ""
+}
+
 func (c *WCase) datas() [][]byte {
 	out := make([][]byte, len(c.Datas))
 	for i, d := range c.Datas {
@@ -59,7 +83,7 @@ func pickSetting(r *Rng, apis []string, accelOnly bool) Setting {
 		s.Level = r.Range(-2, 9)
 	}
 	if !accelOnly && api != "gzip" && r.Intn(8) == 0 {
-		s.Dict = &DataSpec{Gen: r.PickS([]string{"text", "uni3", "rnd"}), Seed: r.U64(), N: r.Pick([]int{1, 30, 500, 5000, 40000})}
+		s.Dict = &DataSpec{Gen: r.PickS([]string{"text", "uni3", "rnd"}), Seed: r.U64(), N: r.Pick([]int{4, 30, 500, 5000, 40000, 40000, r.Range(1, 3)})}
 	}
 	return s
 }
